@@ -244,6 +244,28 @@ TextCases == {c \in {[family |-> "text", base |-> b, op |-> o, pos |-> k] : b \i
               \cup {[family |-> "text", base |-> "SM1", op |-> "verydeep", pos |-> 0]}
 ByteOps == {"flip", "zero", "ff", "trunc", "dup", "ins"}
 ByteCases == {[family |-> "bytes", op |-> o, pos |-> k] : o \in ByteOps, k \in 0..63}
+\* C18: a failing / waiting / succeeding instruction in a context, run uncaught (U) and under an xor (C) whose
+\* catch branch reports :error:.error_code, :error:.message to a service
+CatchableKinds == {"service_error", "fail_literal", "match_ne", "mismatch_eq", "lens_field_missing", "lens_index_oob", "lens_on_scalar",
+                   "ap_lens_missing", "fold_non_array", "non_string_triplet", "length_of_non_array", "not_init_after_new", "fail_last_error_clean"}
+QuietKinds == {"ok_call", "never", "join_wait", "null"}
+UncatchableKinds == {"shadowing"}
+XorContexts == {"plain", "seq_after", "par_left", "par_both", "fold_body", "new_scope", "seq_then"}
+XorCases == {[family |-> "xor", kind |-> k, ctx |-> x] : k \in CatchableKinds \cup QuietKinds \cup UncatchableKinds, x \in XorContexts}
+\* contexts in which the uncaught failure is what the run reports (a par swallows or replaces it)
+Transparent(x) == x \in {"plain", "seq_after", "fold_body", "new_scope", "seq_then"}
+XorExpect(c, o) ==
+    /\ o.u_died = "" /\ o.c_died = ""
+    /\ c.kind \in CatchableKinds =>
+          /\ o.ncaught >= 1
+          /\ Transparent(c.ctx) => (Class(o.u_code) = "catch" /\ o.caught_code = NumS(ToString(o.u_code)) /\ o.msg_equal)
+          /\ c.ctx = "seq_then" => (o.after_c /\ ~o.after_u)
+          /\ Transparent(c.ctx) => o.c_final = 0
+    /\ c.kind \in QuietKinds => o.ncaught = 0
+    /\ c.kind \in UncatchableKinds =>
+          /\ o.ncaught = 0
+          /\ c.ctx # "fold_body" => (Class(o.u_code) = "uncatch" /\ o.c_first_err = o.u_code)
+
 RunScriptCases == {[family |-> "runscript", script |-> s] : s \in ScriptSpace}
 RunScriptExpect(c, o) == o.exec_died = ""
 TextExpect(c, o) == o.parse # "panic" /\ o.beautify # "panic" /\ o.exec_died = ""
@@ -253,6 +275,7 @@ Cases ==
     CASE Family = "version" -> VersionCases
       [] Family = "text" -> TextCases
       [] Family = "runscript" -> RunScriptCases
+      [] Family = "xor" -> XorCases
       [] Family = "bytes" -> ByteCases
       [] Family = "limits" -> LimitCases
       [] Family = "lens" -> LensCasesNorm
@@ -267,6 +290,7 @@ Expect(c, o) ==
       [] c.family = "beautify" -> BeautifyExpect(c, o)
       [] c.family = "text" -> TextExpect(c, o)
       [] c.family = "runscript" -> RunScriptExpect(c, o)
+      [] c.family = "xor" -> XorExpect(c, o)
       [] c.family = "bytes" -> BytesExpect(c, o)
 
 \* --- enumeration: every case is an initial state
